@@ -7,6 +7,7 @@ import (
 	"time"
 
 	"github.com/buildbuildio/pebbles/requests"
+	"github.com/buildbuildio/pebbles/simhook"
 	"github.com/gobwas/ws"
 	"github.com/gobwas/ws/wsutil"
 )
@@ -30,6 +31,8 @@ func (q *MultiOpQueryer) Subscribe(req *requests.Request, closeCh <-chan struct{
 		Header:    ws.HandshakeHeaderHTTP(r.Header),
 	}
 
+	dialer.NetDial = simhook.NetDial()
+
 	parsedURL, err := url.Parse(q.url)
 	if err != nil {
 		return err
@@ -46,6 +49,8 @@ func (q *MultiOpQueryer) Subscribe(req *requests.Request, closeCh <-chan struct{
 	defer close(errCh)
 
 	go func() {
+		simhook.Enter("sub.closer:" + q.url)
+		defer simhook.Exit()
 		defer func() {
 			recover()
 		}()
@@ -54,12 +59,15 @@ func (q *MultiOpQueryer) Subscribe(req *requests.Request, closeCh <-chan struct{
 	}()
 
 	go func() {
+		simhook.Enter("sub.reader:" + q.url)
+		defer simhook.Exit()
 		defer func() {
 			defer func() {
 				recover()
 			}()
 			conn.Close()
 			// indicate that it's done
+			simhook.Yield("sub.reader.done")
 			resCh <- nil
 		}()
 
@@ -93,6 +101,7 @@ func (q *MultiOpQueryer) Subscribe(req *requests.Request, closeCh <-chan struct{
 		}
 
 		// init proccess is done
+		simhook.Yield("sub.reader.init")
 		errCh <- nil
 
 		for {
@@ -108,6 +117,7 @@ func (q *MultiOpQueryer) Subscribe(req *requests.Request, closeCh <-chan struct{
 				if innerErr := json.Unmarshal(msg, &serverErrorResp); innerErr != nil {
 					return
 				}
+				simhook.Yield("sub.reader.send")
 				resCh <- &requests.Response{
 					Errors: serverErrorResp.Payload,
 				}
@@ -121,6 +131,7 @@ func (q *MultiOpQueryer) Subscribe(req *requests.Request, closeCh <-chan struct{
 				requests.SubError:
 				return
 			case requests.SubData:
+				simhook.Yield("sub.reader.send")
 				resCh <- serverResp.Payload
 			}
 		}
